@@ -18,3 +18,4 @@ pub mod g3;
 pub mod d5;
 pub mod t14;
 pub mod w2;
+pub mod t11;
